@@ -136,7 +136,8 @@ def run_shard(spec, ctx):
                         key = "fit-output-manager/print-without-path" if (not var["logs"].get("path") and "path_output" in e.get("msg", "")) else "logging/aborts-the-run"
                         if cell[0] == "joint" and var["logs"].get("plot_periodicity") and "NoneType" in e.get("msg", ""):
                             key = "logging/joint-convergence-plot-zeta-title"
-                        if cell[0] == "mixture_logistic" and var["logs"].get("plot_patient_periodicity") and "same dtype" in e.get("msg", ""):
+                        if cell[0] == "mixture_logistic" and var["logs"].get("plot_patient_periodicity") and (
+                                "same dtype" in e.get("msg", "") or "save_plot_patient_reconstructions" in e.get("tb", "")):
                             key = "logging/mixture-patient-plot-dtype-mismatch"
                         ctx.violation(key, f"logging configuration {var['logs']} made the seeded {what} raise {e.get('type')}: {e.get('msg', '')[:120]}", c2)
                     else:
